@@ -1,7 +1,7 @@
 (* wire glue for engine 107 (row codec, property C07) *)
 (* WIRE engine=107 fn=dispatch_c07 *)
 From Coq Require Import List NArith Bool.
-From RPFT Require Import Base.Sexp Base.PyStr Base.Result Gen.Tables Cell.Cell Row.Ty Row.Layout Row.RowParse Row.RowUnparse Row.FlowRow.
+From RPFT Require Import Base.Sexp Base.PyStr Base.Result Gen.Tables Cell.Cell Row.Ty Row.Layout Row.RowParse Row.RowUnparse Row.FlowRow Row.RoundTrip Row.CtxRoundTripFacts Row.FlowRowFacts.
 Import ListNotations.
 Local Open Scope N_scope.
 
@@ -37,6 +37,18 @@ Definition dispatch_c07 (fn : N) (args : list sexp) : sexp :=
   | 5, [v; A s] =>
     match dec_value 64 v with
     | Some v' => enc_res enc_cells (flow_unparse v' (negb (s =? 0)))
+    | None => s_badinput
+    end
+  (* 6: the domain of the round-trip theorem (row_dom) for (rowmodel, value, targets) *)
+  | 6, [m; v; t] =>
+    match dec_rowmodel m, dec_value 64 v, dec_strs t with
+    | Some m', Some v', Some t' => enc_bool (row_dom (rm_ty m') v' t')
+    | _, _, _ => s_badinput
+    end
+  (* 7: the domain of the flow-row round-trip theorem (flow_dom) *)
+  | 7, [v] =>
+    match dec_value 64 v with
+    | Some v' => enc_bool (flow_dom v')
     | None => s_badinput
     end
   | _, _ => s_badinput
